@@ -8,6 +8,7 @@ Events (also the line-protocol tokens understood by the Lean driver op `c08`):
   r:<value>:<min>:<max>          controller report for the parameter
   w:<ms>                         advance the clock (ignored if it would reach the pending timer)
   t                              advance the clock to the pending timer and let it fire
+  k:1                            the controller starts announcing the parameters-frame version (tracking on)
 Observed outputs per event (canonical strings, same as the driver's):
   S:<raw value>:<t ms>  set request put on the write queue      R:<t ms>  re-read request
   T:<t ms> / F:<t ms>   set() returned True / False            E:<t ms>  set() raised ValueError
@@ -50,54 +51,170 @@ SET_TYPE = {"ecomax": FrameType.REQUEST_SET_ECOMAX_PARAMETER, "mixer": FrameType
 REFRESH_TYPE = {"ecomax": FrameType.REQUEST_ECOMAX_PARAMETERS, "mixer": FrameType.REQUEST_MIXER_PARAMETERS,
                 "thermostat": FrameType.REQUEST_THERMOSTAT_PARAMETERS, "schedule": FrameType.REQUEST_SCHEDULES}
 
+_TABLES = None
+
+
+def tables():
+    global _TABLES
+    if _TABLES is None:
+        import json
+        import os
+        from common import VERIF
+        with open(os.path.join(VERIF, "build", "tables.json")) as f:
+            _TABLES = json.load(f)
+    return _TABLES
+
+
+def _conv_words(kind, row):
+    """driver words (cls mnum mden offset precision) as harness/paramdev.conv_words / Model/ParamTables.convOf"""
+    cls = "sw" if row["switch"] else {"ecomax": "so", "mixer": "so", "thermostat": "sc", "schedule": "pl"}[kind]
+    off = row["offset"] if cls == "so" else 0
+    return f"{cls} {row['mult_num']} {row['mult_den']} {off} {row['precision']}"
+
+
+# which parameter the rig works on.  id -> (kind, sub-device index, parameter index | schedule name, 'p'|'s')
+TARGET_IDS = {
+    # the four base targets (first parameter of the first sub-device / schedule)
+    "ecomax": ("ecomax", 0, 0, None), "mixer": ("mixer", 0, 0, None), "thermostat": ("thermostat", 0, 0, None),
+    "schedule": ("schedule", 0, "heating", "p"),
+    # other addresses: another index, second mixer / thermostat, scaled rows (multiplier 0.1, offset 20), 2-byte row
+    "ecomax:85": ("ecomax", 0, 85, None), "ecomax:88": ("ecomax", 0, 88, None), "ecomax:108": ("ecomax", 0, 108, None),
+    "ecomax:18": ("ecomax", 0, 18, None),
+    "mixer1:0": ("mixer", 1, 0, None), "mixer1:5": ("mixer", 1, 5, None), "mixer0:6": ("mixer", 0, 6, None),
+    "thermostat1:0": ("thermostat", 1, 0, None), "thermostat1:1": ("thermostat", 1, 1, None),
+    "thermostat0:8": ("thermostat", 0, 8, None),
+    # schedules whose name extends another schedule's name, and the shorter one next to the longer
+    "schedule:heating_circulation:p": ("schedule", 0, "heating_circulation", "p"),
+    "schedule:mixer_10:p": ("schedule", 0, "mixer_10", "p"),
+    "schedule:mixer_1:p": ("schedule", 0, "mixer_1", "p"),
+    "schedule:intake_summer:s": ("schedule", 0, "intake_summer", "s"),
+    "schedule:water_heater_2:p": ("schedule", 0, "water_heater_2", "p"),
+    "schedule:heating:s": ("schedule", 0, "heating", "s"),
+}
+BASE_TARGETS = ("ecomax", "mixer", "thermostat", "schedule")
+PARTNER = {"heating": "heating_circulation", "heating_circulation": "heating", "mixer_10": "mixer_1", "mixer_1": "mixer_10",
+           "intake_summer": "intake", "water_heater_2": "water_heater"}
+
+
+class Target:
+    def __init__(self, tid):
+        self.id = tid
+        self.kind, self.dev, ix, self.part = TARGET_IDS[tid]
+        t = tables()
+        if self.kind == "schedule":
+            self.sched = ix
+            self.sched_index = t["schedules"].index(ix)
+            self.partner = PARTNER[ix]
+            self.partner_index = t["schedules"].index(self.partner)
+            self.index = self.sched_index * 2 + (1 if self.part == "p" else 0)
+            row = t["tables"]["scheduleParams"][self.index]
+        else:
+            self.index = ix
+            row = t["tables"][{"ecomax": "ecomaxP", "mixer": "mixerP", "thermostat": "thermostat"}[self.kind]][ix]
+        self.row = row
+        self.name = row["name"]
+        self.size = row["size"] if self.kind == "thermostat" else 1
+        self.switch = bool(row["switch"])
+        self.conv = _conv_words(self.kind, row)
+        self.scaled = (row["mult_num"], row["mult_den"]) != (1, 1) or (row["offset"] != 0 and self.kind != "thermostat")
+        self.maxraw = 256 ** self.size - 1
+
+    def display_of(self, raw):
+        """a display value whose raw value is meant to be `raw` (what a user would type)"""
+        r = self.row
+        if (r["mult_num"], r["mult_den"]) != (1, 1):
+            return round((raw - (r["offset"] if self.kind != "thermostat" else 0)) * (r["mult_num"] / r["mult_den"]), 1)
+        if r["offset"] and self.kind != "thermostat":
+            return raw - r["offset"]
+        return raw
+
+
+_TARGETS = {}
+
+
+def target(tid):
+    if isinstance(tid, Target):
+        return tid
+    if tid not in _TARGETS:
+        _TARGETS[tid] = Target(tid)
+    return _TARGETS[tid]
+
 
 def sensor_message(versions):
     head = bytes([len(versions)]) + b"".join(bytes([ft, ver & 0xFF, ver >> 8]) for ft, ver in versions)
     return SensorDataMessage(sender=DeviceType.ECOMAX, message=bytearray(head + SENSOR_TAIL))
 
 
-def report_frame(kind, triple):
-    """parameters response carrying exactly one defined parameter: the one under test"""
+def _le(v, size):
+    return int(v).to_bytes(size, "little")
+
+
+def report_frame(tid, triple):
+    """parameters response in which the parameter under test carries `triple` (everything else
+    in it is filler that never changes)"""
+    tg = target(tid)
     v, lo, hi = triple
-    t = bytes([v, lo, hi])
-    if kind == "ecomax":      # [_, start, count, triples...]   parameter index 0
-        return EcomaxParametersResponse(sender=DeviceType.ECOMAX, message=bytearray(b"\x00\x00\x01" + t))
-    if kind == "mixer":       # [_, start, count, mixers, triples...]   mixer 0, parameter index 0
-        return MixerParametersResponse(sender=DeviceType.ECOMAX, message=bytearray(b"\x00\x00\x01\x01" + t))
-    if kind == "thermostat":  # [_, start, count, profile triple, per thermostat: triples]; thermostat 0 'mode'
+    E = DeviceType.ECOMAX
+    if tg.kind == "ecomax":      # [_, start, count, triples...]
+        return EcomaxParametersResponse(sender=E, message=bytearray(bytes([0, tg.index, 1, v, lo, hi])))
+    if tg.kind == "mixer":       # [_, start, count, mixers, per mixer: triples...]
+        body = b"".join(bytes([v, lo, hi]) if m == tg.dev else bytes([5, 0, 100]) for m in range(2))
+        return MixerParametersResponse(sender=E, message=bytearray(bytes([0, tg.index, 1, 2]) + body))
+    if tg.kind == "thermostat":  # [_, start, count, profile triple, per thermostat: parameters 0..index, sized]
+        rows = tables()["tables"]["thermostat"]
+        body = b""
+        for th in range(THERMOSTATS):
+            for ix in range(tg.index + 1):
+                sz = rows[ix]["size"]
+                if th == tg.dev and ix == tg.index:
+                    body += _le(v, sz) + _le(lo, sz) + _le(hi, sz)
+                else:
+                    body += _le(3, sz) + _le(0, sz) + _le(200, sz)
         return ThermostatParametersResponse(
-            sender=DeviceType.ECOMAX, message=bytearray(b"\x00\x00\x02" + b"\xff\xff\xff" + t + b"\x00\x00\x05"))
-    if kind == "schedule":    # [_, start, count, per schedule: index, switch, parameter triple, 42 bytes]
-        return SchedulesResponse(
-            sender=DeviceType.ECOMAX, message=bytearray(b"\x00\x00\x01" + b"\x00\x01" + t + bytes(42)))
-    raise ValueError(kind)
+            sender=E, message=bytearray(bytes([0, 0, THERMOSTATS * (tg.index + 1)]) + b"\xff\xff\xff" + body))
+    if tg.kind == "schedule":    # [_, start, count, per schedule: index, switch, parameter triple, 42 bytes]
+        if tg.part == "p":
+            rec = bytes([tg.sched_index, 1, v, lo, hi]) + bytes(42)
+        else:
+            rec = bytes([tg.sched_index, v, 9, 0, 100]) + bytes(42)
+        partner = bytes([tg.partner_index, 0, 7, 0, 100]) + bytes(42)
+        recs = [rec, partner] if tg.sched_index < tg.partner_index else [partner, rec]
+        return SchedulesResponse(sender=E, message=bytearray(b"\x00\x00\x02" + b"".join(recs)))
+    raise ValueError(tg.kind)
 
 
-def find_holder(device, kind):
+def find_holder(device, tid):
     """(the device object that holds the parameter, the parameter's name)"""
-    if kind == "ecomax":
-        return device, "airflow_power_100"
-    if kind == "mixer":
-        return device.data["mixers"][0], "mixer_target_temp"
-    if kind == "thermostat":
-        return device.data["thermostats"][0], "mode"
-    return device, "heating_schedule_parameter"
+    tg = target(tid)
+    if tg.kind == "mixer":
+        return device.data["mixers"][tg.dev], tg.name
+    if tg.kind == "thermostat":
+        return device.data["thermostats"][tg.dev], tg.name
+    return device, tg.name
 
 
-def find_parameter(device, kind):
-    holder, name = find_holder(device, kind)
+def find_parameter(device, tid):
+    holder, name = find_holder(device, tid)
     return holder.data[name]
 
 
-def tx_value(kind, frame):
+def tx_value(tid, frame):
+    """the raw value carried by a set request, None if it does not address the parameter under test
+    (the addressing is asserted here: index / sub-device / offset / schedule number and the untouched fields)"""
+    tg = target(tid)
     m = bytes(frame.message)
-    if kind == "ecomax":
-        return m[1] if len(m) == 2 and m[0] == 0 else None
-    if kind == "mixer":
-        return m[2] if len(m) == 3 and m[0] == 0 and m[1] == 0 else None
-    if kind == "thermostat":   # [index + 1 + offset, value (size bytes)]
-        return int.from_bytes(m[1:], "little") if len(m) == 2 and m[0] == 1 else None
-    return m[3] if len(m) == 4 + 42 and m[0] == 1 and m[1] == 0 else None
+    if tg.kind == "ecomax":
+        return m[1] if len(m) == 2 and m[0] == tg.index else None
+    if tg.kind == "mixer":
+        return m[2] if len(m) == 3 and m[0] == tg.dev and m[1] == tg.index else None
+    if tg.kind == "thermostat":   # [index + 1 + thermostat * (parameters per thermostat), value (size bytes)]
+        want = tg.index + 1 + tg.dev * (tg.index + 1)
+        return int.from_bytes(m[1:], "little") if len(m) == 1 + tg.size and m[0] == want else None
+    if len(m) != 4 + 42 or m[0] != 1 or m[1] != tg.sched_index or any(m[4:]):
+        return None
+    if tg.part == "p":
+        return m[3] if m[2] == 1 else None
+    return m[2] if m[3] == 9 else None
 
 
 class StampQueue(asyncio.Queue):
@@ -122,8 +239,12 @@ def ms(t):
 class Rig:
     """one device + one parameter, driven event by event"""
 
-    def __init__(self, kind, tracking, hold, initial, start_ms=0, late=False, via_device=False):
-        self.kind = kind
+    def __init__(self, kind, tracking, hold, initial, start_ms=0, late=False, via_device=False, display=None):
+        self.target = target(kind)
+        self.tid = kind
+        kind = self.kind = self.target.kind
+        self.display = display         # value handed to set() instead of the raw value of the call token
+        self.tracking = bool(tracking)
         self.via_device = via_device   # call Device.set(name, value, retries) instead of Parameter.set (timeout = default)
         self.late = late      # read the bytes of a queued set request only at the end of the run
         self.deferred = []    # (group list, position, frame, t)
@@ -139,9 +260,9 @@ class Rig:
         versions = [(int(REFRESH_TYPE[kind]), 1)] if tracking else [(int(FrameType.REQUEST_ALERTS), 1)]
         self.device.handle_frame(sensor_message(versions))
         self.loop.settle()
-        self.device.handle_frame(report_frame(kind, initial))
+        self.device.handle_frame(report_frame(self.target, initial))
         self.loop.settle()
-        self.param = find_parameter(self.device, kind)
+        self.param = find_parameter(self.device, self.target)
         self.drain()
         self.loop.hold = hold
 
@@ -187,7 +308,7 @@ class Rig:
         return out
 
     def show_set(self, f, t):
-        v = tx_value(self.kind, f)
+        v = tx_value(self.target, f)
         return f"S:{v}:{t}" if v is not None else f"X:set-frame:{bytes(f.message).hex()}:{t}"
 
     def resolve(self):
@@ -203,8 +324,10 @@ class Rig:
         if p[0] == "c":
             if self.task is None:
                 v, r, T = int(p[1]), int(p[2]), int(p[3])
+                if self.display is not None:
+                    v = self.display      # the display value whose raw value (Lean: toRaw) is the token's v
                 if self.via_device:
-                    holder, name = find_holder(self.device, self.kind)
+                    holder, name = find_holder(self.device, self.target)
                     assert T == 5000, "Device.set uses Parameter.set's default timeout"
                     self.task = loop.create_task(holder.set(name, v, retries=r))
                 else:
@@ -213,7 +336,26 @@ class Rig:
             if loop.held:
                 loop.release(0)
         elif p[0] == "r":
-            self.device.handle_frame(report_frame(self.kind, (int(p[1]), int(p[2]), int(p[3]))))
+            self.device.handle_frame(report_frame(self.target, (int(p[1]), int(p[2]), int(p[3]))))
+        elif p[0] == "k":
+            # the controller starts announcing the version of the parameters frame (sensor data with a
+            # frame-versions entry): from now on has_frame_version(...) is True.  The announcement itself makes
+            # the device request that frame once (C15's business): that request is taken off the queue here.
+            if p[1] != "1":
+                raise ValueError("tracking cannot be switched off by any frame")
+            if not self.tracking:
+                self.tracking = True
+                before = self.drain()
+                hold, loop.hold = loop.hold, False
+                self.device.handle_frame(sensor_message([(int(REFRESH_TYPE[self.kind]), 1)]))
+                loop.settle()
+                loop.hold = hold
+                got = []
+                while not self.queue.empty():
+                    got.append(self.queue.get_nowait())
+                    self.queue.stamps.pop(0)
+                ok = len(got) == 1 and got[0].frame_type == REFRESH_TYPE[self.kind]
+                return before + ([] if ok else [f"X:versions:{[type(g).__name__ for g in got]}".replace(" ", "")])
         elif p[0] == "w":
             target = loop.time() + int(p[1]) / 1000.0
             nt = loop.next_timer()
@@ -229,9 +371,9 @@ class Rig:
         return self.drain()
 
 
-def run_history(kind, tracking, hold, initial, events_, start_ms=0, late=False, via_device=False):
+def run_history(kind, tracking, hold, initial, events_, start_ms=0, late=False, via_device=False, display=None):
     """-> (groups: list of output lists per event, final clock ms, local triple at the end)"""
-    rig = Rig(kind, tracking, hold, initial, start_ms, late, via_device)
+    rig = Rig(kind, tracking, hold, initial, start_ms, late, via_device, display)
     try:
         groups = [rig.apply(e) for e in events_]
         rig.resolve()
